@@ -18,7 +18,9 @@ RULE = ("trees: (a) every forest shape with <=3 (quick) / <=4 (thorough) element
         "new tags with namespace prefixes on (b).  For every tree: every element as start x the seven families x "
         "{plural, singular} x limits {None,0,1,2,50} x queries drawn from a grammar over name / attrs / kwargs / string "
         "criteria of every kind (str, non-str object, True, False, None, compiled pattern, function, list incl. None / "
-        "nested / empty items, class_ and deprecated text= spellings, non-dict attrs) — all combinations for the fixed "
+        "nested / empty items and every flavour of iterable of alternatives — tuple, set, frozenset, dict, dict views, generator, "
+        "iterator, map —, numbers 0 / 0.0 / 1 / -1 next to True / False / None on attribute values \"0\", \"1\", \"False\", \"\", "
+        "class_ and deprecated text= spellings, non-dict attrs) — all combinations for the fixed "
         "core query list on small trees, sampled otherwise; tag(...) and tag.name shorthands; every public spelling of "
         "every family (the 14 documented names and the 15 camelCase / fetch* aliases) from every element, judged by the "
         "oracle on the documented axis; CSS selectors (type, .class, #id, [attr], [attr=v], compounds, descendant and child "
@@ -83,7 +85,9 @@ class Funs:
 
 # ----------------------------------------------------------------------------------- queries
 # atom descriptions: ("s", str) ("o", int) ("b", bool) ("f", fid) ("p", pid) ("n",) ("nested",)
-# crit descriptions: ("one", atom) | ("list", [atoms])
+# crit descriptions: ("one", atom) | ("list", [atoms]) | ("list", [atoms], flavour): any other iterable holding the
+# same items — tuple, set, frozenset, dict (its keys), dict_keys, dict_values, generator, iterator, map.  The
+# documented meaning of a list of criteria ("matches any of") is what every iterable of criteria means.
 NONE = ("one", ("n",))
 
 
@@ -97,6 +101,29 @@ def lst(*atoms):
 
 def S(s):
     return ("s", s)
+
+
+FLAVOURS = ["tuple", "set", "frozenset", "dict", "dict_keys", "dict_values", "generator", "iterator", "map"]
+HASHED = ("set", "frozenset", "dict", "dict_keys")
+LAZY = ("generator", "iterator", "map")
+
+
+def itr(flavour, *atoms):
+    return ("list", list(atoms), flavour)
+
+
+def hashable_atoms(atoms):
+    """Usable in a set / as dict keys without changing the meaning: no unhashable nested list, no two items that
+    Python considers equal (0 == 0.0 == False, 1 == True)."""
+    vals = []
+    for a in atoms:
+        if a[0] == "nested":
+            return False
+        v = None if a[0] == "n" else (a[0], a[1]) if a[0] in ("f", "p") else a[1]
+        if any(v == w for w in vals):
+            return False
+        vals.append(v)
+    return True
 
 
 def mkq(name=NONE, attrs=("dict", []), string=NONE, kwargs=(), limit=None):
@@ -123,7 +150,27 @@ def py_atom(a, funs, site):
 def py_crit(c, funs, site):
     if c[0] == "one":
         return py_atom(c[1], funs, site)
-    return [py_atom(a, funs, site) for a in c[1]]
+    items = [py_atom(a, funs, site) for a in c[1]]
+    fl = c[2] if len(c) > 2 else "list"
+    if fl == "list":
+        return items
+    if fl == "tuple":
+        return tuple(items)
+    if fl == "set":
+        return set(items)
+    if fl == "frozenset":
+        return frozenset(items)
+    if fl == "dict":
+        return {v: i for i, v in enumerate(items)}
+    if fl == "dict_keys":
+        return {v: i for i, v in enumerate(items)}.keys()
+    if fl == "dict_values":
+        return {i: v for i, v in enumerate(items)}.values()
+    if fl == "generator":
+        return (v for v in items)
+    if fl == "iterator":
+        return iter(items)
+    return map(lambda v: v, items)
 
 
 def enc_atom(a):
@@ -155,6 +202,8 @@ def attrs_truthy(attrs):
     """Python truth value of a non-dict attrs argument."""
     c = attrs[1]
     if c[0] == "list":
+        if len(c) > 2 and c[2] in LAZY:
+            return True                  # a generator / iterator / map object is truthy whatever it yields
         return len(c[1]) > 0
     a = c[1]
     if a[0] == "s":
@@ -503,6 +552,76 @@ def run_impl(case, start, axis, singular, q, via_call=False):
 
 
 # ----------------------------------------------------------------------------------- query lists
+def kinds_queries():
+    """Every kind of criterion value, side by side, for the name / an attribute / class / string criterion: numbers
+    (used through their str: 0 is "0", 0.0 is "0.0"), True (present), False and None (absent), strings that look like
+    them, and every flavour of iterable of alternatives (any of)."""
+    Q = []
+    scalars = [("o", 0), ("o", 0.0), ("o", 1), ("o", -1), ("b", True), ("b", False), ("n",), S("0"), S("False"), S(""), S("1")]
+    for a in scalars:
+        c = one(a)
+        Q.append(mkq(kwargs=[("id", c)]))
+        Q.append(mkq(attrs=("dict", [("data-k", c)])))
+        Q.append(mkq(kwargs=[("class_", c)]))
+        if a != ("n",):
+            Q.append(mkq(name=c))
+            Q.append(mkq(string=c))
+            Q.append(mkq(name=one(S("a")), kwargs=[("id", c)]))
+    Q.append(mkq(kwargs=[("id", lst(("o", 0), ("b", False)))]))
+    Q.append(mkq(kwargs=[("id", lst(("b", False), ("o", 1)))]))
+    item_sets = {"name": [[S("a"), S("b")], [S("b")], [S("zz"), ("p", 0)], []],
+                 "attr": [[S("0"), S("1")], [("o", 0), S("x")], [S("False")], [("o", 1), ("o", -1)], []],
+                 "string": [[S("t1"), S("0")], [("o", 0)], [S("t2"), ("p", 10)], []]}
+    for fl in FLAVOURS:
+        for kind, sets in item_sets.items():
+            for atoms in sets:
+                if fl in HASHED and not hashable_atoms(atoms):
+                    continue
+                c = itr(fl, *atoms)
+                if kind == "name":
+                    Q.append(mkq(name=c))
+                    Q.append(mkq(name=c, kwargs=[("id", one(("b", True)))]))
+                elif kind == "attr":
+                    Q.append(mkq(kwargs=[("id", c)]))
+                    Q.append(mkq(attrs=("dict", [("data-k", c)])))
+                    Q.append(mkq(kwargs=[("class_", c)]))
+                    if fl != "dict":          # a dict given as attrs IS the attrs dictionary, not a class criterion
+                        Q.append(mkq(attrs=("other", c)))
+                else:
+                    Q.append(mkq(string=c))
+                    Q.append(mkq(name=one(S("a")), string=c))
+    return Q
+
+
+def kinds_trees():
+    """Attribute values and texts that look like numbers, booleans and the empty string."""
+    out = []
+    with warnings.catch_warnings():
+        warnings.simplefilter("ignore")
+        for mk in ('<a id="0" data-k="0.0" class="0 x">0</a><a id="1" data-k="False" class="1">t1</a>'
+                   '<b id="" data-k="-1" class="">1</b><b id="False" data-k="0">False</b><a>t2</a>',
+                   '<a id="x"><b id="0" class="False"><a data-k="1">0</a></b>0.0</a><b class="-1 0" data-k="">t1</b>'):
+            out.append(Case([BeautifulSoup(mk, "html.parser")], {"markup": mk}))
+    return out
+
+
+def kinds_block(ctx):
+    queries = kinds_queries()
+    for case in kinds_trees():
+        searches = []
+        for start, o in enumerate(case.forest.objs):
+            for axis in (0, 2, 3, 6):
+                if axis < 2 and not isinstance(o, Tag):
+                    continue
+                for q in queries:
+                    searches.append((start, axis, False, q, False))
+                    if axis == 0:
+                        searches.append((start, axis, True, q, False))
+                        searches.append((start, axis, False, dict(q, limit=1), False))
+        for i in range(0, len(searches), 3000):
+            check_case(ctx, case, searches[i:i + 3000])
+
+
 def core_queries():
     """The fixed list: every criterion kind alone and the combinations the code treats specially."""
     Q = []
@@ -557,7 +676,8 @@ def random_atom(rng, kind):
                 ("p", rng.randrange(len(PATTERNS))), ("f", rng.randrange(NFUN)), ("o", 7), ("n",), ("nested",)]
     elif kind == "attr":
         pool = [S("x"), S("y"), S("z"), S("x y"), S("1"), S("2"), S(""), S("k"), ("b", True), ("b", False),
-                ("p", rng.randrange(len(PATTERNS))), ("f", rng.randrange(NFUN)), ("o", 1), ("n",), ("nested",)]
+                ("p", rng.randrange(len(PATTERNS))), ("f", rng.randrange(NFUN)), ("o", 1), ("n",), ("nested",),
+                ("o", 0), ("o", 0.0), ("o", -1), S("0"), S("False")]
     else:
         pool = [S("t1"), S("t2"), S("t1t2"), S(""), S(" "), ("b", True), ("b", False), ("p", rng.randrange(len(PATTERNS))),
                 ("f", rng.randrange(NFUN)), ("n",), ("nested",)]
@@ -568,7 +688,17 @@ def random_crit(rng, kind, none_p=0.0):
     if rng.random() < none_p:
         return NONE
     if rng.random() < 0.3:
-        return ("list", [random_atom(rng, kind) for _ in range(rng.choice([0, 1, 2, 2, 3]))])
+        atoms = [random_atom(rng, kind) for _ in range(rng.choice([0, 1, 2, 2, 3]))]
+        if rng.random() < 0.5:
+            fl = rng.choice(FLAVOURS)
+            if fl in HASHED:
+                # sets and dict keys: hashable, pairwise different items, and no functions (the iteration order of a
+                # set is not the order the items were written in, which would reorder the call log)
+                atoms = [a for a in atoms if a[0] not in ("f", "nested")]
+                if not hashable_atoms(atoms):
+                    fl = "tuple"
+            return ("list", atoms, fl)
+        return ("list", atoms)
     a = random_atom(rng, kind)
     if a[0] == "nested":
         a = S("a")
@@ -584,7 +714,10 @@ def random_query(rng):
         keys = rng.sample(["id", "class", "data-k", "rel", "href", "class_"], rng.choice([1, 1, 2]))
         attrs = ("dict", [(k, random_crit(rng, "attr", 0.1)) for k in keys])
     else:
-        attrs = ("other", random_crit(rng, "attr", 0.05))
+        c = random_crit(rng, "attr", 0.05)
+        if len(c) > 2 and c[2] == "dict":
+            c = ("list", c[1], "dict_keys")      # a dict given as attrs IS the attrs dictionary
+        attrs = ("other", c)
     kwargs = []
     if rng.random() < 0.4:
         for k in rng.sample(["id", "class_", "data-k", "rel", "text", "href"], rng.choice([1, 1, 2])):
@@ -648,9 +781,9 @@ def random_markup(rng, maxnodes):
         if rng.random() < 0.5:
             at += ' class="%s"' % rng.choice(classes)
         if rng.random() < 0.4:
-            at += ' id="%s"' % rng.choice(["1", "2", "k"])
+            at += ' id="%s"' % rng.choice(["1", "2", "k", "0", "False", ""])
         if rng.random() < 0.2:
-            at += ' data-k="%s"' % rng.choice(["x", "x y", ""])
+            at += ' data-k="%s"' % rng.choice(["x", "x y", "", "0", "0.0", "-1", "1"])
         if rng.random() < 0.15 and nm == "a":
             at += ' rel="%s" href="%s"' % (rng.choice(["x", "x y"]), rng.choice(["k", "2"]))
         kids = "".join(node(depth + 1) for _ in range(rng.choice([0, 1, 1, 2, 3])))
@@ -1325,6 +1458,7 @@ def run_all(ctx):
         warnings.simplefilter("ignore")
         for case, searches in corpus_cases():
             check_case(ctx, case, searches)
+        kinds_block(ctx)
         core = core_queries()
         edge = edge_queries()
         small = small_trees(4 if ctx.thorough else 3)
@@ -1506,6 +1640,8 @@ def replay(ctx, data):
 def norm_crit(c):
     if c[0] == "one":
         return ("one", tuple(c[1]))
+    if len(c) > 2:
+        return ("list", [tuple(a) for a in c[1]], c[2])
     return ("list", [tuple(a) for a in c[1]])
 
 
